@@ -37,7 +37,7 @@ func identity(der []byte) string {
 
 func tlcpDstKey(d int) string { return fmt.Sprintf("dst%d:443", d) }
 
-func tlcpHandshake(dst int, server int, cs, ss []uint16, ccache, scache Cache[*tlcp.SessionState], fault string, seed uint64) HS {
+func tlcpHandshake(dst int, server int, cs, ss []uint16, ccache, scache Cache[*tlcp.SessionState], fault string, seed uint64, mid func()) HS {
 	s := pki.Std()
 	rnd := hx.NewRand(seed)
 	ccfg := &tlcp.Config{RootCAs: s.Root.Pool, ServerName: "test.example", Time: pki.NowFn, CipherSuites: cs,
@@ -67,6 +67,16 @@ func tlcpHandshake(dst int, server int, cs, ss []uint16, ccache, scache Cache[*t
 			se.OnWrite = damage
 		case "cf":
 			ce.OnWrite = damage
+		}
+		if mid != nil {
+			first := true
+			ce.OnWrite = func(data []byte) [][]byte {
+				if first {
+					first = false
+					mid()
+				}
+				return [][]byte{data}
+			}
 		}
 	})
 	h := HS{CErr: r.CErr, SErr: r.SErr}
